@@ -15,7 +15,8 @@ RULE = ('cases = well-typed pipelines of 1-6 built-in steps (field, row, resourc
         'datetime, array, object, any); checked on the raw stream and through results(); non-trivial = at least one step '
         'changes schema or rows; distinct = distinct case digest'
         '; round 4: also full-outer joins on composite keys written as format strings and lists whose field names sort differently on the two sides, and concatenation that renames a primary-key field (primary keys must name declared fields)'
-        '; round 7: add_field/add_computed_field constants of several types, twelve bare iterables in one flow, non-adjacent concatenation; primary keys must name declared fields')
+        '; round 7: add_field/add_computed_field constants of several types, twelve bare iterables in one flow, non-adjacent concatenation; primary keys must name declared fields'
+        '; round 9: bare iterables with values of Python types the source link does not know (Fraction, timedelta, bytes, frozenset: typed any, rows untouched); a plain table loaded through env:// is described as when loaded by its path')
 TRUSTED = ['Coq 8.16.1 kernel + vm_compute', 'harness/p02.py oracle (tableschema Field.cast_value decides validity of a value for a declared field; datapackage.validate decides descriptor validity)',
            'the generator\'s notion of a well-typed step sequence (fresh target names, existing source fields, type-compatible aggregates)']
 ASSUMES = ['conforming typed input', 'well-typed parameters (domain of the property)']
